@@ -9,13 +9,30 @@ PROPS = {}
 # crate -> {first module path segment of a harness -> source file (for appending playback tests)}
 MODFILE = {
     "hx-client": {"c13": "src/c13.rs"},
+    "hx-protocol": {"c05": "src/c05.rs", "c06": "src/c06.rs", "c14": "src/c14.rs"},
+    "hx-topic": {"pubsub_t": "src/pubsub_t.rs", "reqrep_t": "src/reqrep_t.rs"},
+    "hx-server": {"fanout": "src/fanout.rs", "router": "src/router.rs", "pubsub": "src/pubsub.rs", "reqrep": "src/reqrep.rs"},
 }
 PREPARE = {}
 
 FMT_STUB_NOTE = "alloc::fmt::format -> empty String, log::__private_api::log -> no-op (formatting/logging is not the subject)"
 
+NOT_APPLICABLE = {
+    "C04": "request() is async over tokio::time::timeout, a oneshot, a tokio Mutex and a reply-matching task that only exists inside tokio::spawn over a live QUIC stream; Kani has no concurrency/timers and the types cannot be constructed without a connection (the server half, routing by cid, is decided under C02)",
+    "C12": "KeepAlive<T> needs a live quinn::Connection behind Arc<tokio::Mutex<..>>, sleeps on tokio timers and re-handshakes; no bounded encoding is within reach of the solver-based tools here and a hand model would decide the model, not the code",
+    "C15": "certificate-path validation is rustls/webpki/ring (C and assembly) inside a network handshake: nothing in it is a bounded computation that can be handed to the solver",
+    "C17": "the mechanism is a tokio::sync::Mutex held across an await on a bounded channel while other tasks contend: a multi-task blocking property; Kani has no scheduler and there is no single-threaded function whose symbolic execution expresses it",
+}
+
+# properties whose checks are still being built in this session (moved to PROPS when they run clean)
+PENDING = "check under construction (harnesses exist under /verif/engines/kani but are not yet registered as passing); not claimed yet"
+for _p in ("C01", "C02", "C03", "C05", "C06", "C07", "C08", "C09", "C10", "C11", "C14", "C16"):
+    NOT_APPLICABLE.setdefault(_p, PENDING)
+
 PROPS["C13"] = {
     "level": "model_checking",
+    "claim": "Every CBMC-checked condition (harness assertions: count, numbering, law against a reference, clamp; plus every panic/overflow check compiled into BackoffStrategyIter::next and the std Duration code it calls) holds for ALL steps and maximum delays (full u64 s + u32 ns) at the listed attempt counts; bounded model checking with unwinding assertions on, so the claim is exact within the bounds and says nothing beyond them.",
+    "note": "Trusted: Kani/CBMC/cadical; std's Duration::checked_mul as the reference for the linear law; the f64 product of the exponential law is compared against the same f64 product on the exactly computed integer power. Kani models the dev profile; counterexamples are replayed natively in dev and release-like profiles before being reported.",
     "obligations": [
         K("hx-client", "c13::c13_constant_a0", Q, bounds="attempts=0; step,max symbolic (u64 s, u32 ns<1e9)"),
         K("hx-client", "c13::c13_constant_a3", Q, bounds="attempts=3; step,max symbolic"),
@@ -24,23 +41,76 @@ PROPS["C13"] = {
         K("hx-client", "c13::c13_linear_a1", Q, bounds="attempts=1; step,max symbolic"),
         K("hx-client", "c13::c13_linear_a3", Q, bounds="attempts=3; step,max symbolic"),
         K("hx-client", "c13::c13_linear_a6", T, bounds="attempts=6; step,max symbolic"),
-        K("hx-client", "c13::c13_exp_f0_a3", Q, bounds="factor=0, attempts=3; step,max symbolic"),
-        K("hx-client", "c13::c13_exp_f1_a3", Q, bounds="factor=1, attempts=3; step,max symbolic"),
-        K("hx-client", "c13::c13_exp_f2_a3", Q, bounds="factor=2, attempts=3; step,max symbolic"),
-        K("hx-client", "c13::c13_exp_f3_a4", T, bounds="factor=3, attempts=4; step,max symbolic", timeout=3000),
-        K("hx-client", "c13::c13_exp_f10_a3", T, bounds="factor=10, attempts=3; step,max symbolic", timeout=3000),
-        K("hx-client", "c13::c13_exp_fmax_a3", Q, bounds="factor=u64::MAX, attempts=3; step,max symbolic"),
-        K("hx-client", "c13::c13_exp_f4294967296_a3", Q, bounds="factor=2^32, attempts=3; step,max symbolic"),
-        K("hx-client", "c13::c13_exp_f2_a66", T, bounds="factor=2, attempts=66 (2^64 overflows u64 at attempt 65); step,max symbolic", timeout=3400),
-        K("hx-client", "c13::c13_exp_f10_a21", T, bounds="factor=10, attempts=21 (10^20 overflows u64 at attempt 21); step,max symbolic", timeout=3400),
-        K("hx-client", "c13::c13_exp_symbolic_factor_a2", T, bounds="factor: every u64, attempts=2; step,max symbolic", timeout=3400),
+        # exponential (A): symbolic step/max, structural properties (see c13.rs)
+        K("hx-client", "c13::c13_expA_f0_a3", Q, bounds="factor=0, attempts=3; step,max symbolic; structural"),
+        K("hx-client", "c13::c13_expA_f1_a3", Q, bounds="factor=1, attempts=3; step,max symbolic; structural"),
+        K("hx-client", "c13::c13_expA_f2_a3", Q, bounds="factor=2, attempts=3; step,max symbolic; structural"),
+        K("hx-client", "c13::c13_expA_f10_a4", T, bounds="factor=10, attempts=4; step,max symbolic; structural", timeout=1800),
+        K("hx-client", "c13::c13_expA_f2p32_a3", Q, bounds="factor=2^32, attempts=3 (power overflows at attempt 3); step,max symbolic"),
+        K("hx-client", "c13::c13_expA_fmax_a3", Q, bounds="factor=u64::MAX, attempts=3; step,max symbolic"),
+        K("hx-client", "c13::c13_expA_f2_a66", T, bounds="factor=2, attempts=66 (2^64 overflows u64 at attempt 65); step,max symbolic", timeout=3400, mem_gb=16),
+        K("hx-client", "c13::c13_expA_f10_a21", T, bounds="factor=10, attempts=21 (10^20 overflows at attempt 21); step,max symbolic", timeout=3400, mem_gb=16),
+        K("hx-client", "c13::c13_expA_symbolic_factor_a2", T, bounds="factor: every u64, attempts=2; step,max symbolic", timeout=3400),
+        # exponential (B): the law against the reference, step from a menu of 8 concrete values, max symbolic
+        K("hx-client", "c13::c13_expB_f0_a3", Q, bounds="factor=0, attempts=3; step in STEP_MENU (8 values incl. 0, 1ns, Duration::MAX); max symbolic"),
+        K("hx-client", "c13::c13_expB_f1_a3", Q, bounds="factor=1, attempts=3; step in STEP_MENU; max symbolic"),
+        K("hx-client", "c13::c13_expB_f2_a4", Q, bounds="factor=2, attempts=4; step in STEP_MENU; max symbolic"),
+        K("hx-client", "c13::c13_expB_f3_a5", T, bounds="factor=3, attempts=5; step in STEP_MENU; max symbolic"),
+        K("hx-client", "c13::c13_expB_f10_a21", T, bounds="factor=10, attempts=21; step in STEP_MENU; max symbolic", timeout=3000),
+        K("hx-client", "c13::c13_expB_f2_a66", T, bounds="factor=2, attempts=66; step in STEP_MENU; max symbolic", timeout=3000),
+        K("hx-client", "c13::c13_expB_fmax_a3", Q, bounds="factor=u64::MAX, attempts=3; step in STEP_MENU; max symbolic"),
     ],
     "functions": ["selium::keep_alive::backoff_strategy::BackoffStrategy::{constant,linear,exponential,with_step,with_max_attempts,with_max_duration,into_iter}",
                   "<BackoffStrategyIter as Iterator>::next"],
-    "bounds": {"quick": "attempts in {0,1,3}; step/max: every Duration; factor: every u64",
-               "thorough": "attempts in {0..6} plus (f=2,a=66), (f=10,a=21); step/max: every Duration"},
-    "outside": "attempt counts beyond the listed ones (the per-step obligation depends on the attempt number only through i)",
+    "bounds": {"quick": "constant/linear: attempts in {0,1,3}, every step and max (u64 s + u32 ns). exponential: factors {0,1,2,2^32,u64::MAX}, attempts 3-4; "
+                        "structural part (count, numbering, clamp, saturation on u64 overflow of the power, monotonicity, no panic) for every step and max; "
+                        "the law value itself against the reference for 8 concrete steps (0, 1ns, 999999999ns, 1s, 2.5s, 1h, 2^40s+7ns, Duration::MAX) and every max",
+               "thorough": "adds attempts 6 (constant/linear), factors 3, 10, symbolic factor with 2 attempts, and the schedules in which the power leaves u64: (f=2, 66 attempts), (f=10, 21 attempts)"},
+    "outside": "attempt counts beyond the listed ones; the exact exponential law value for steps outside the 8-value menu (a second symbolic copy of the f64 product is an equivalence CBMC does not finish); factors other than the listed ones except in the 2-attempt symbolic-factor harness",
     "assumptions": ["reference for the linear law is std's Duration::checked_mul; for the exponential law the single f64 product is "
                     "compared against the same f64 product on the exactly computed integer power (no tolerance)",
                     "Kani models the dev profile (overflow checks on); replays are run in dev and release-like profiles"],
+}
+
+
+BS = r"std::pin::Pin<std::boxed::Box<dyn futures::Sink<u8, Error = mock::MockErr> \+ std::marker::Send>>"
+PST = r"std::pin::Pin<std::boxed::Box<dyn futures::Stream<Item = std::result::Result<u8, selium_std::errors::SeliumError>> \+ std::marker::Send>>"
+PUBSUB_REPLACE = [
+    (rf"<selium_server::sink::FanoutMany<usize, {BS}> as futures::Sink<u8>>::poll_ready", r"model::fan_poll_ready"),
+    (rf"<selium_server::sink::FanoutMany<usize, {BS}> as futures::Sink<u8>>::start_send", r"model::fan_start_send"),
+    (rf"<selium_server::sink::FanoutMany<usize, {BS}> as futures::Sink<u8>>::poll_flush", r"model::fan_poll_flush"),
+    (rf"selium_server::sink::FanoutMany::<usize, {BS}>::insert", r"model::fan_insert"),
+    (rf"tokio_stream::StreamMap::<usize, {PST}>::insert", r"model::sm_insert"),
+    (rf"tokio_stream::StreamMap::<usize, {PST}>::is_empty", r"model::sm_is_empty"),
+    (rf"<tokio_stream::StreamMap<usize, {PST}> as futures::Stream>::poll_next", r"model::sm_poll_next"),
+    (r"<futures::futures_channel::mpsc::Receiver<selium_server::topic::pubsub::Socket<u8, mock::MockErr>> as futures::Stream>::poll_next", r"model::rx_poll_next"),
+]
+# error values are only logged and dropped by the code under test; their drop glue (io::Error's
+# custom payload is dropped through a raw fn pointer) is cut at goto level: errors are leaked
+ERR_DROP_CUT = [r"drop_in_place::<selium_std::errors::SeliumError>", r"drop_in_place::<std::io::Error>", r"drop_in_place::<std::io::error", r"drop_in_place::<anyhow::Error>"]
+
+FANOUT_S = [
+    K("hx-server", "fanout::s_fanout_n0_r2", Q, bounds="0 sinks, 2 rounds (poll_ready; start_send if ready; optional poll_flush); all sink outcomes symbolic"),
+    K("hx-server", "fanout::s_fanout_n1_r2", Q, bounds="1 sink, 2 rounds", timeout=1500, mem_gb=8),
+    K("hx-server", "fanout::s_fanout_n2_r2", Q, bounds="2 sinks, 2 rounds", timeout=1500, mem_gb=10),
+    K("hx-server", "fanout::s_fanout_n2_r3", T, bounds="2 sinks, 3 rounds", timeout=3000, mem_gb=14),
+]
+FANOUT_FAULTS_S = [
+    K("hx-server", "fanout::s_fanout_faults_n1_r2", Q, bounds="1 sink, 2 rounds, any sink operation may fail", timeout=1500, mem_gb=8),
+    K("hx-server", "fanout::s_fanout_faults_n2_r2", Q, bounds="2 sinks, 2 rounds, any sink operation may fail", timeout=2400, mem_gb=12),
+]
+
+PROPS["C08"] = {
+    "level": "model_checking", "claimed": False,
+    "claim": "wip", "note": "wip",
+    "obligations": FANOUT_FAULTS_S,
+}
+
+
+def _unbatch(tiers, b, **kw):
+    return K("hx-protocol", f"c06::c06_unbatch_b{b}", tiers, bounds=f"decode_message_batch on {b} arbitrary bytes", **kw)
+
+PROPS["C06"] = {
+    "level": "model_checking", "claimed": False, "claim": "wip", "note": "wip",
+    "obligations": [_unbatch(Q, b) for b in (0, 1, 7, 8, 9, 15, 16, 17)] + [_unbatch(T, 25, timeout=1800)],
 }
